@@ -36,7 +36,17 @@ func main() {
 	tier := flag.String("tier", "quick", "quick|thorough")
 	repo := flag.String("repo", "/repo", "repository root")
 	verif := flag.String("verif", "/verif", "verif root")
+	dump := flag.String("dumpkinds", "", "debug: dump inferred kinds of functions whose name contains this")
 	flag.Parse()
+	if *dump != "" {
+		w, err := Load(*repo, filepath.Join(*verif, "checker", "canary"))
+		if err != nil {
+			fmt.Println(err)
+			os.Exit(2)
+		}
+		dumpKinds(w, *dump)
+		return
+	}
 	if t := os.Getenv("VERIF_TIER"); t != "" && *tier == "" {
 		*tier = t
 	}
